@@ -294,6 +294,31 @@ def run(ctx):
                 res.add("CC-COVER", f, "components.append(component)", "collect", "ok" if appended else ("unknown" if res_mut and not comp_names else "violation"), "" if appended else "a found component is not added to the result", loc(v.fi, g))
     with res.guard("B-LARGEST"):
         check_largest_component(ctx, res)
+    # ---- CC-SWEEP: a search expands EVERY node it has discovered.  A `break` that leaves the loop over the current frontier / queue
+    #      on a condition about the node at hand (it has no new neighbours) abandons the rest of the frontier: whatever is reachable
+    #      only through those nodes is missing from the component
+    with res.guard("CC-SWEEP"):
+        res.rules["CC-SWEEP"] = "a search never leaves the loop over the discovered nodes because of a property of the node at hand (`break` where `continue` is meant); only a depth bound ends it early"
+        for d in ("visits._bfs", "visits._dfs"):
+            v = ctx.view(d)
+            n_b = 0
+            for lp in [n for n in walk_no_nested(v.fi.node) if isinstance(n, (ast.For, ast.While))]:
+                tv = {x.id for x in ast.walk(lp.target) if isinstance(x, ast.Name)} if isinstance(lp, ast.For) else set()
+                for b in [x for st in lp.body for x in ast.walk(st) if isinstance(x, ast.Break)]:
+                    if v.enclosing(b, (ast.For, ast.While)) is not lp:
+                        continue
+                    n_b += 1
+                    guards = [i for i in v.enclosing_all(b, (ast.If,)) if any(i is y for y in ast.walk(lp))]
+                    gi = [v.inline(i.test, depth=2) for i in guards]
+                    names = {x.id for t in gi for x in ast.walk(t) if isinstance(x, ast.Name)} | {x.id for i in guards for x in ast.walk(i.test) if isinstance(x, ast.Name)}
+                    about_depth = any("depth" in nm for nm in names)
+                    per_node = bool(names & tv) or any(isinstance(x, ast.Call) and isinstance(x.func, (ast.Name, ast.Attribute)) and norm(x.func).split(".")[-1] == "get_neighbors" for t in gi for x in ast.walk(t))
+                    if per_node and not about_depth and isinstance(lp, ast.For):
+                        res.violation("CC-SWEEP", v.fi.short, norm(guards[0].test)[:80] if guards else "break", "expand-all", f"the loop over the discovered nodes is LEFT (`break`) when `{norm(guards[0].test)[:50] if guards else ''}` holds for the node at hand: the remaining nodes of the frontier are never expanded, so nodes reachable only through them are missing from the component (`continue` skips one node, `break` abandons the level)", loc(v.fi, b))
+                    else:
+                        res.unknown("CC-SWEEP", v.fi.short, "break", "expand-all", "an early exit from the traversal loop; its condition was not classified", loc(v.fi, b))
+            if n_b == 0:
+                res.ok("CC-SWEEP", v.fi.short, "no early exit from the traversal loops", "expand-all", loc(v.fi, v.fi.node))
     # ---- B-START: the start node itself always belongs to the visited set a search returns
     with res.guard("B-START: the start node itself always belongs to the visited set a search returns"):
         res.rules["B-START"] = "a search puts its start node (the node dequeued from a queue seeded with `start`) into the returned set, guarded by nothing but `not in visited`"
